@@ -317,6 +317,8 @@ def run(ctx):
     check_inorder(ctx)
     check_heap_order(ctx)
     check_synrcvd_ack(ctx)
+    from . import seqprims
+    seqprims.check_ack_processing(ctx, "T-ACKEST")
 
     # ---------------------------------------------------------------- T-ACK-PRUNE
     m = T.TcbModel(prog, ps)
